@@ -27,6 +27,8 @@ inductive Op
   | sleep (ms : Nat) | deliver (k : Nat) | dto (k m : Nat) | send (n a port len : Nat)
   | idx (n v : Nat) | del (n li : Nat) | swap (n li : Nat)
   | dl (j : Nat) | dlto (j m : Nat)               -- deliver counting back from the latest transmission
+  | cmcheck (n li : Nat) (inT outT : Bool)        -- connection manager traffic check
+  | block (n m : Nat)                             -- node n reloads its CA pool with node m's certificates blocklisted
   deriving Repr, Inhabited
 
 def Net.node? (w : Net) (n : Nat) : Option Node := w.nodes[n]?
@@ -52,6 +54,9 @@ def Net.absorb (w : Net) (src : Nat) (o : Out) : Net :=
 /-- certificate a node presents at version `v`: a v1 certificate carries only the first address -/
 def certAddrsOf (c : Cfg) (v : Nat) : List Addr := if v == 1 then c.myAddrs.take 1 else c.myAddrs
 
+/-- identity of the certificate node `n` presents at version `v` -/
+def certIdOf (n v : Nat) : Nat := n * 10 + v
+
 /-- deliver packet `h` (sent by node `src`) to node `to` -/
 def Net.deliverTo (w : Net) (h : Handle) (src to : Nat) : Option (Net × Out) :=
   match w.node? to, alookup h w.pkts with
@@ -61,16 +66,22 @@ def Net.deliverTo (w : Net) (h : Handle) (src to : Nat) : Option (Net × Out) :=
     | some cn =>
       match info with
       | .s1 _ initIdx time ver =>
-        let c : Completed := { certAddrs := certAddrsOf cn.cfg ver, certVer := ver, remoteIndex := initIdx, time := time }
+        let c : Completed := { certAddrs := certAddrsOf cn.cfg ver, certVer := ver, remoteIndex := initIdx, time := time,
+                               certId := certIdOf creator ver }
         let respVer := if nd.cfg.hasVer ver then ver else nd.cfg.defaultVer
-        let (nd', o) := nd.step (.stage1 src h (some c) respVer w.now)
+        -- a blocklisted certificate fails verification inside the Machine: no result
+        let res := if nd.blocked.contains c.certId then none else some c
+        let (nd', o) := nd.step (.stage1 src h res respVer w.now)
         some ((w.setNode to nd').absorb to o, o)
       | .s2 _ respIdx initIdx time ver replyTo =>
         let res : S2Res :=
           match (alookup initIdx nd.p.pindexes).bind nd.p.pendingById with
           | some hh =>
             if hh.pkt0 == some replyTo then
-              .completed { certAddrs := certAddrsOf cn.cfg ver, certVer := ver, remoteIndex := respIdx, time := time }
+              -- the verifier consults the CURRENT trust store: a blocklisted certificate fails the Machine for good
+              if nd.blocked.contains (certIdOf creator ver) then .err true else
+              .completed { certAddrs := certAddrsOf cn.cfg ver, certVer := ver, remoteIndex := respIdx, time := time,
+                           certId := certIdOf creator ver }
             else .err false
           | none => .err false
         let (nd', o) := nd.step (.stage2 src initIdx res)
@@ -110,6 +121,8 @@ def Net.stepCore (w : Net) : Op → Net × Option Nat × String × Out
       | .send n a port len => (n, some (.send a { len := if is6 a then max len 48 else max len 28, port := port }))
       | .del n li => (n, some (.del li))
       | .swap n li => (n, some (.swap li))
+      | .cmcheck n li i o => (n, some (.cmcheck li i o))
+      | .block n m => (n, some (.block [certIdOf m 1, certIdOf m 2]))
       | _ => (0, none)
     match w.node? n, ev? with
     | some nd, some ev =>
@@ -117,6 +130,7 @@ def Net.stepCore (w : Net) : Op → Net × Option Nat × String × Out
       let res := match ev with
         | .del li => (nd.deleteTunnel li).2
         | .swap li => (nd.swapCheck li).2
+        | .cmcheck li _ _ => if (alookup li nd.main.indexes).isSome then "ok" else "none"
         | _ => "ok"
       ((w.setNode n nd').absorb n o, some n, res, o)
     | _, _ => (w, none, "bad-op", {})
